@@ -118,6 +118,7 @@ class PyReader:
         self._decorated: dict = {}
         self._module_initialised = False
         self._globals_busy: set = set()
+        self._extern_cache = {}
 
     def _imports(self, module: str, name: str) -> bool:
         return any(isinstance(s, ast.ImportFrom) and s.module == module and any(a.name == name and a.asname is None for a in s.names) for s in self.module.body)
@@ -459,6 +460,14 @@ class PyReader:
                 return g
             if n.id == "pi":
                 return T("pi")
+            for xm in self.extern_modules:
+                # a module-level table of the module an extern function lives in (evaluated on demand, like this module's own)
+                sts = [st for st in xm.body if isinstance(st, ast.Assign) and len(st.targets) == 1 and isinstance(st.targets[0], ast.Name) and st.targets[0].id == n.id]
+                if len(sts) == 1:
+                    key_ = (id(xm), n.id)
+                    if key_ not in self._extern_cache:
+                        self._extern_cache[key_] = self.ev(sts[0].value, {}, {})
+                    return self._extern_cache[key_]
             if any(isinstance(s_, ast.ImportFrom) and any((a_.asname or a_.name) == n.id for a_ in s_.names) for s_ in self.module.body):
                 return ("extfn", n.id)  # an imported function handed on as a value (map(f, xs), key=f): applied like the spelled-out call f(...)
             self.fail(n, "unbound name")
@@ -511,6 +520,10 @@ class PyReader:
                 if any(dotted(d_) in ("property", "cached_property", "functools.cached_property") for d_ in fn_.decorator_list):
                     return self.call_def(fn_, [base], None, fns)  # a property of the flattened class: its getter evaluated on the object
                 return ("bound", n.attr, base)  # a method of the flattened class taken as a value
+            if not isinstance(base, (T, int, list, dict, str, tuple, type(None))) and n.attr.isidentifier() and not n.attr.startswith("__"):
+                # `obj.method` of one of the rule's model objects taken as a value (f = obj.method; map(obj.method, xs)): called like the spelled-out obj.method(...);
+                # anything else done with it fails further on
+                return ("methodref", base, n.attr)
             self.fail(n, "attribute")
         if isinstance(n, ast.UnaryOp):
             v = self.ev(n.operand, env, fns)
@@ -663,8 +676,17 @@ class PyReader:
             for e2 in self.comp_envs(n.generators, env, fns, n):
                 out[freeze(self.ev(n.elt, e2, fns))] = True
             return out
-        if isinstance(n, ast.Dict) and all(k is not None for k in n.keys):
-            return {self.ev(k, env, fns): self.ev(v, env, fns) for k, v in zip(n.keys, n.values)}
+        if isinstance(n, ast.Dict):
+            out_ = {}
+            for k, v in zip(n.keys, n.values):
+                if k is None:  # {**other, ...}
+                    other_ = self.ev(v, env, fns)
+                    if not isinstance(other_, dict) or isinstance(other_, PySet):
+                        self.fail(n, "** of something that is no mapping")
+                    out_.update(other_)
+                else:
+                    out_[freeze(self.ev(k, env, fns))] = self.ev(v, env, fns)
+            return out_
         if isinstance(n, ast.Call):
             return self.ev_call(n, env, fns)
         if isinstance(n, ast.Lambda):
@@ -879,6 +901,9 @@ class PyReader:
     extern_static: dict = {}
     # module-level functions of OTHER modules the evaluated code imports by name: {"helper": FunctionDef}; evaluated from their source
     extern_functions: dict = {}
+    # the modules those extern functions / static methods live in: their module-level tables are visible to them
+    extern_modules: list = []
+    _extern_cache: dict = {}
 
     def ev_call(self, n: ast.Call, env: dict, fns: dict):
         r = self._ev_call(n, env, fns)
@@ -975,6 +1000,10 @@ class PyReader:
             if len(n.args) == 2:
                 return self.ev(n.args[1], env, fns)
             raise Raised("StopIteration", getattr(n, "lineno", 0))
+        if name == "map" and len(n.args) == 2 and name not in self.functions and name not in env:
+            seq_ = self.ev(n.args[1], env, fns)
+            if isinstance(seq_, tuple) and seq_ and seq_[0] == "count":
+                return ("lazy-map", self.ev(n.args[0], env, fns), seq_)  # map(f, count()): unbounded, only ever zipped with something finite
         if name == "map" and len(n.args) >= 3:
             fval = self.ev(n.args[0], env, fns)
             seqs = [self.ev(a, env, fns) for a in n.args[1:]]
@@ -1153,9 +1182,25 @@ class PyReader:
         if name in ("list", "tuple") and len(args) == 1 and isinstance(args[0], list):
             return list(args[0])
         if name == "zip":
+            finite = [a for a in args if not (isinstance(a, tuple) and a and a[0] in ("count", "lazy-map"))]
+            if len(finite) != len(args):
+                if not finite or kwargs.get("strict"):
+                    self.fail(n, "zip of unbounded iterators only")
+                k_ = min(len(a) for a in finite)
+                mat = []
+                for a in args:
+                    if isinstance(a, tuple) and a[0] == "count":
+                        mat.append([a[1] + i_ * a[2] for i_ in range(k_)])
+                    elif isinstance(a, tuple) and a[0] == "lazy-map":
+                        mat.append([self.apply_value(a[1], [a[2][1] + i_ * a[2][2]], n, fns) for i_ in range(k_)])
+                    else:
+                        mat.append(list(a)[:k_])
+                return [list(t) for t in zip(*mat)]
             if kwargs.get("strict") and len({len(a) for a in args}) > 1:
                 raise Raised("ValueError", getattr(n, "lineno", 0))
             return [list(t) for t in zip(*args)]
+        if name == "count" and len(args) <= 2 and all(isinstance(a, int) for a in args) and name not in self.functions and self._imports("itertools", "count"):
+            return ("count", args[0] if args else 0, args[1] if len(args) > 1 else 1)
         if name == "enumerate" and len(args) in (1, 2) and isinstance(args[0], (list, str)):
             start = args[1] if len(args) == 2 else kwargs.get("start", 0)
             return [[i, x] for i, x in enumerate(args[0], start)]
